@@ -121,7 +121,7 @@ def ev(node, env):
         return ev(node.value, env)[ev(node.slice, env)]
     if isinstance(node, ast.IfExp):
         return ev(node.body, env) if ev(node.test, env) else ev(node.orelse, env)
-    if isinstance(node, ast.Call) and isinstance(node.func, ast.Attribute) and node.func.attr in ('get', 'startswith', 'endswith', 'keys', 'values', 'items', 'isdigit', 'copy') \
+    if isinstance(node, ast.Call) and isinstance(node.func, ast.Attribute) and node.func.attr in ('get', 'startswith', 'endswith', 'keys', 'values', 'items', 'isdigit', 'copy', 'split', 'replace', 'strip', 'lower', 'upper', 'casefold') \
             and u(node.func) not in env and u(node.func) not in BUILTINS:
         recv = ev(node.func.value, env)
         if isinstance(recv, (dict, str)):
@@ -172,8 +172,11 @@ def run_stmts(stmts, env):
             for e, v in zip(st.targets[0].elts, vals):
                 env[e.id] = v
         elif isinstance(st, ast.Assign) and len(st.targets) == 1 and isinstance(st.targets[0], ast.Subscript) \
-                and isinstance(st.targets[0].value, ast.Name) and isinstance(env.get(st.targets[0].value.id), dict):
-            env[st.targets[0].value.id][ev(st.targets[0].slice, env)] = ev(st.value, env)
+                and isinstance(st.targets[0].value, (ast.Name, ast.Attribute)) and isinstance(env.get(u(st.targets[0].value)), dict):
+            env[u(st.targets[0].value)][ev(st.targets[0].slice, env)] = ev(st.value, env)
+        elif isinstance(st, ast.Assign) and len(st.targets) == 1 and isinstance(st.targets[0], ast.Attribute) and isinstance(st.targets[0].value, ast.Name):
+            # object state as flattened names: self.x = value
+            env[u(st.targets[0])] = ev(st.value, env)
         elif isinstance(st, ast.For) and isinstance(st.target, (ast.Name, ast.Tuple)):
             # finite iteration over a small concrete value (string / tuple / list), with break / else
             seq = list(ev(st.iter, env))
